@@ -288,7 +288,9 @@ fn shrink_case(mon: &mut dyn Monitor, case: &Case, signature: &str, time_limit: 
 
 pub fn worker_main(mon: &mut dyn Monitor, args: WorkArgs) -> i32 {
     install_panic_hook();
-    mon.set_known(&open_known_signatures(&args.verif_dir, mon.id()));
+    let known_sigs = open_known_signatures(&args.verif_dir, mon.id());
+    let known_res: Vec<regex::Regex> = known_sigs.iter().filter_map(|s| regex::Regex::new(s).ok()).collect();
+    mon.set_known(&known_sigs);
     let plan = mon.plan(args.tier);
     let tag = format!("s{}.k{}", args.shard, args.start);
     let journal_path = args.dir.join(format!("s{}.journal", args.shard));
@@ -403,7 +405,10 @@ pub fn worker_main(mon: &mut dyn Monitor, args: WorkArgs) -> i32 {
                 }
                 let base = narrowed.unwrap_or_else(|| case.clone());
                 // shrinking may be slow: no watchdog while shrinking (bounded by its own timer)
-                let (shrunk, sdetail, steps) = shrink_case(mon, &base, &signature, Duration::from_secs(20));
+                // no shrinking for failures that already match an open known finding
+                let pre = guarded(|| mon.classify(&base, &signature)).unwrap_or_else(|_| signature.clone());
+                let is_known = known_res.iter().any(|r| r.is_match(&pre));
+                let (shrunk, sdetail, steps) = if is_known { (base.clone(), String::new(), 0) } else { shrink_case(mon, &base, &signature, Duration::from_secs(15)) };
                 let fine = guarded(|| mon.classify(&shrunk, &signature)).unwrap_or_else(|_| signature.clone());
                 let rec = json!({
                     "index": index, "signature": fine, "coarse_signature": signature,
